@@ -11,6 +11,7 @@ and new_primitive_type() directly.  All must give the same ctype object and the
 compiler's facts; the tables are also compared as data, index by index.
 """
 import os, sys, json, itertools, subprocess, re
+import concurrent.futures as cf
 from vlib import core, build, cc, modbuild
 
 RULE = ("the complete name set, no sampling: every key of ALL_PRIMITIVE_TYPES, PRIMITIVE_TO_INDEX and "
@@ -18,11 +19,11 @@ RULE = ("the complete name set, no sampling: every key of ALL_PRIMITIVE_TYPES, P
         "every ISO C specifier multiset (char .. unsigned long long int, float, double, long double, _Bool, "
         "float/double/long double _Complex: 99 spellings), plus the hostile neighbourhood: every sequence of "
         "<= 3 (thorough: 4) of the 10 specifier keywords, every sequence of <= 4 (thorough: 5) of the integer "
-        "keywords and double, and every one-character substitution/deletion/insertion/doubling of each table "
-        "identifier; case = (name, resolution path); distinct = (name, path); non-trivial = the name is "
+        "keywords and double, and every one-character substitution/insertion (by 'x', '1'; thorough also '_', "
+        "'t'), deletion and doubling in each table identifier; case = (name, resolution path); distinct = (name, path); non-trivial = the name is "
         "accepted by gcc or by at least one cffi path; the seed only permutes the order of names and paths")
 ASSUMPTIONS = ["gcc -std=gnu11 with <stdint.h> <stddef.h> <sys/types.h> <wchar.h> <uchar.h> <stdbool.h> <complex.h> "
-               "is the platform compiler; _cffi_{float,double}_complex_t are float/double _Complex as in _cffi_include.h",
+               "is the platform compiler (thorough: clang must agree, else the name is not judged); _cffi_{float,double}_complex_t are float/double _Complex as in _cffi_include.h",
                "plain 'char' is a character type in cffi: int() of it is the byte value 0..255 (documented character "
                "semantics), so its signedness is not compared with the compiler's; wchar_t's is",
                "a spelling that gcc rejects has no compiler facts: a cffi path accepting it is counted, not judged "
@@ -47,6 +48,7 @@ HEADERS = ''.join('#include <%s>\n' % h for h in
                   ['stdio.h', 'stddef.h', 'stdint.h', 'sys/types.h', 'wchar.h', 'uchar.h', 'stdbool.h',
                    'complex.h'])
 CPLX = 'typedef float _Complex _cffi_float_complex_t;\ntypedef double _Complex _cffi_double_complex_t;\n'
+TDGROUP = 12
 PATHS = ['inline', 'inline_typedef', 'cparser', 'abi_typedef', 'abi_parse', 'api_typedef', 'api_parse']
 
 
@@ -63,11 +65,11 @@ def spellings(thorough):
     return out
 
 
-def near_misses(idents):
+def near_misses(idents, chars):
     out = []
     for w in idents:
         for i in range(len(w) + 1):
-            for c in 'x_1t':
+            for c in chars:
                 out.append(w[:i] + c + w[i:])
                 if i < len(w):
                     out.append(w[:i] + c + w[i + 1:])
@@ -85,7 +87,7 @@ def name_set(tables, thorough):
     tnames = list(tables['all_prim']) + list(tables['prim_to_index']) + list(tables['common'])
     idents = sorted(set(n for n in tnames if is_ident(n)))
     seen, out = set(), []
-    for n in tnames + spellings(thorough) + near_misses(idents):
+    for n in tnames + spellings(thorough) + near_misses(idents, 'x_1t' if thorough else 'x1'):
         if n not in seen:
             seen.add(n)
             out.append(n)
@@ -117,19 +119,29 @@ def prep_main(thorough, outp):
 # ---------------------------------------------------------------------------
 # the compiler oracle
 
-def gcc_accepts(tmp, names):
+def _chunks(seq, n):
+    size = max(1, (len(seq) + n - 1) // n)
+    return [seq[i:i + size] for i in range(0, len(seq), size)]
+
+
+def _par(fn, tmp, names, n=4):
+    with cf.ThreadPoolExecutor(max_workers=n) as ex:
+        return list(ex.map(lambda a: fn(tmp, a[1], a[0]), enumerate(_chunks(names, n))))
+
+
+def gcc_accepts(tmp, names, tag=0):
     """One gcc run: line k+BASE is `typedef <name> T_k;`; the lines with an
     error are the names gcc does not take for a type."""
     head = HEADERS + CPLX
     base = head.count('\n') + 1
-    src = os.path.join(tmp, 'accept.c')
+    src = os.path.join(tmp, 'accept%d.c' % tag)
     with open(src, 'w') as f:
         f.write(head + ''.join('typedef %s T_%d;\n' % (n, k) for k, n in enumerate(names)))
     r = subprocess.run(['gcc', '-std=c11', '-pedantic-errors', '-fsyntax-only', '-fmax-errors=0', src],
                        stdout=subprocess.PIPE, stderr=subprocess.PIPE, timeout=600)
     err = r.stderr.decode(errors='replace')
     bad = set(int(m.group(1)) - base for m in
-              re.finditer(r'accept\.c:(\d+):\d+: (?:fatal )?error:', err))
+              re.finditer(r'accept\d+\.c:(\d+):\d+: (?:fatal )?error:', err))
     if r.returncode != 0 and not bad:
         raise core.Inconclusive('gcc acceptance pass failed: ' + err[-800:])
     if any(k < 0 or k >= len(names) for k in bad):
@@ -137,7 +149,7 @@ def gcc_accepts(tmp, names):
     return [n for k, n in enumerate(names) if k not in bad]
 
 
-def gcc_facts(tmp, names):
+def gcc_facts(tmp, names, tag=0, compiler='gcc'):
     gen = ', '.join('%s: %d' % (c, i) for i, c in enumerate(CANON))
     parts = [HEADERS, CPLX, '''
 #define CANON(T) _Generic((T)0, %s, default: -1)
@@ -155,10 +167,10 @@ def gcc_facts(tmp, names):
     for k in range(len(names)):
         parts.append('  PROBE(%d, T_%d);\n' % (k, k))
     parts.append('  return 0;\n}\n')
-    exe = os.path.join(tmp, 'facts')
-    rc, msg = cc.compile_c(tmp, ''.join(parts), exe)
+    exe = os.path.join(tmp, 'facts_%s%d' % (compiler, tag))
+    rc, msg = cc.compile_c(tmp, ''.join(parts), exe, cc=compiler)
     if rc != 0:
-        raise core.Inconclusive('gcc fact probe does not compile: ' + msg[-1500:])
+        raise core.Inconclusive(compiler + ' fact probe does not compile: ' + msg[-1500:])
     rc, out, err = cc.run_exe(exe)
     if rc != 0:
         raise core.Inconclusive('gcc fact probe exited %s: %s' % (rc, err[-500:]))
@@ -191,7 +203,7 @@ def build_setup(ctx, mod_names, gcc_ok):
         if not r['ok']:
             raise core.Inconclusive('module %s does not build: %s %s' %
                                     (s['name'], r['error'][-800:], r.get('log', '')[-800:]))
-    return {'dir': d, 'mod_names': mod_names, 'cdef': cdef}
+    return {'dir': d, 'mod_names': mod_names}
 
 
 def generate(ctx):
@@ -206,13 +218,24 @@ def generate(ctx):
     with open(outp) as f:
         prep = json.load(f)
     names = prep['names']
-    ok = gcc_accepts(ctx.tmp, names)
-    facts = gcc_facts(ctx.tmp, ok)
+    ok = sum(_par(gcc_accepts, ctx.tmp, names), [])
+    with cf.ThreadPoolExecutor(max_workers=1) as ex:      # modules and fact probes side by side
+        fut = ex.submit(build_setup, ctx, prep['inline_accepts'], set(ok))
+        facts = {}
+        for d in _par(gcc_facts, ctx.tmp, ok):
+            facts.update(d)
+        if ctx.thorough:        # second opinion: a name on which clang disagrees is not judged
+            for d in _par(lambda t, n, k: gcc_facts(t, n, k, 'clang'), ctx.tmp, ok):
+                for n, g in d.items():
+                    ctx.count('clang_agrees_with_gcc' if facts[n] == g else 'clang_disagrees_inconclusive')
+                    if facts[n] != g:
+                        ctx.note('gcc/clang disagree on %r: %s / %s' % (n, facts[n], g))
+                        del facts[n]
+        setup = fut.result()
     ctx.count('names', len(names))
     ctx.count('names_gcc_accepts', len(ok))
     ctx.count('names_iso_spelling_permutations', len(set(sum(
         [[' '.join(p) for p in itertools.permutations(s.split())] for s in ISO], []))))
-    setup = build_setup(ctx, prep['inline_accepts'], facts)
     ctx.count('module_typedefs', len(setup['mod_names']))
     rng = ctx.rng('order')
     rng.shuffle(names)
@@ -238,12 +261,17 @@ def child_setup(setup, wd):
     sys.path.insert(0, setup['dir'])
     import _cffi_backend, _c06abi, _c06api
     from cffi import FFI
-    td = FFI()
-    try:
-        td.cdef(setup['cdef'])
-    except Exception:
-        td = None           # (replay of a name the in-line parser rejects)
-    return {'B': _cffi_backend, 'inline': FFI(), 'td': td, 'cparser': _cffi_backend.FFI(),
+    # in-line FFIs holding the typedefs, few per FFI: every typeof() re-parses all of them
+    tds = []
+    for i in range(0, len(setup['mod_names']), TDGROUP):
+        td = FFI()
+        try:
+            td.cdef(''.join('typedef %s t_%d;\n' % (n, i + j)
+                            for j, n in enumerate(setup['mod_names'][i:i + TDGROUP])))
+        except Exception:
+            td = None       # (replay of a name the in-line parser rejects)
+        tds.append(td)
+    return {'B': _cffi_backend, 'inline': FFI(), 'td': tds, 'cparser': _cffi_backend.FFI(),
             'abi': _c06abi.ffi, 'api': _c06api.ffi,
             'tk': {n: k for k, n in enumerate(setup['mod_names'])}}
 
@@ -320,10 +348,12 @@ def resolve(st, path, name):
         return st['cparser'].typeof(name)
     k = st['tk'].get(name)
     where = path.split('_')[0]
-    ffi = st['td'] if where == 'inline' else st[where]
     if path.endswith('_parse'):
-        return ffi.typeof(name)
-    if k is None or ffi is None:
+        return st[where].typeof(name)
+    if k is None:
+        return None
+    ffi = st['td'][k // TDGROUP] if where == 'inline' else st[where]
+    if ffi is None:
         return None
     return ffi.typeof('t_%d' % k)
 
@@ -352,7 +382,7 @@ def names_case(st, case, rep):
                 got[path] = ct
                 rep.stat('accepted_%s' % path)
             rep.case((name, path), nontrivial=bool(g) or ct is not None,
-                     sample={'name': name, 'path': path, 'ctype': ct and ct.cname, 'gcc': g})
+                     sample={'name': name, 'path': path, 'ctype': ct.cname, 'gcc': g} if g and ct else None)
         intable = name in ALL or isinstance(COMMON.get(name), str)
         if intable:
             rep.stat('table_names')
